@@ -288,6 +288,12 @@ func (r *Run) runBatch(vhost, vplugin, name string, cases []spec.Case, retry boo
 	cmd.Dir = dir
 	cmd.Stdout = errf
 	cmd.Stderr = errf
+	// a distinctive stdin (not /dev/null), so "the plugin gets the host's stdin" is observable
+	os.WriteFile(filepath.Join(dir, "stdin.txt"), []byte("host stdin\n"), 0o644)
+	if sf, err := os.Open(filepath.Join(dir, "stdin.txt")); err == nil {
+		cmd.Stdin = sf
+		defer sf.Close()
+	}
 	cmd.SysProcAttr = &syscall.SysProcAttr{Setpgid: true}
 	cmd.Env = append(os.Environ(),
 		"VERIF_CASES="+cf, "VERIF_EVENTS="+ef, "VERIF_PLUGIN="+vplugin, "VERIF_DIR="+dir,
